@@ -1,11 +1,51 @@
 """Texts for MANIFEST.json, one entry per claimed property."""
 
+WIRE_NOTE = ("Trusts go-pfcp for decoding responses, the harness-owned BESS/P4Runtime servers (table semantics written from conf/up4.bess and the "
+             "P4Runtime specification, not from code under test) and the probe argument (per-association handling is sequential, so everything read "
+             "before the answer to a following probe heartbeat is the complete reaction to the injected datagram). Exploration never proves absence.")
+
 TEXT = {
+    "C01": {
+        "engine": "rapid-wire",
+        "technique": "grammar-based IE-tree mutation fuzzing (rapid) of every PFCP message type injected at drawn points of association/session histories, with liveness probe and follow-up scenario oracle; crash attribution by journal + delta debugging",
+        "level_text": "Mutants (drop/duplicate/empty/truncate/retype/reorder/unknown IE/IPv6-only/CHOOSE flags/flow-description surgery/header surgery, byte-level corruption, garbage) of templates of all dispatched and undispatched message types are sent over UDP to the real agent in states none/associated/session/modified/zero-PDR/deleted/released, with UE-IP allocation on and off. Oracle: process alive, probe heartbeat answered, at most one datagram back per datagram, and a canonical valid scenario afterwards succeeds on the same and on another association. A process death is attributed to the case in flight, confirmed in a fresh process and delta-debugged.",
+        "level_note": WIRE_NOTE,
+    },
     "C02": {
         "engine": "rapid-wire",
         "technique": "stateful property-based testing (rapid) of the real agent over UDP with a per-request response-shape oracle and heartbeat probes",
-        "level_text": "Generated histories over 1-3 associations and several sessions are sent to the real agent over UDP; after every request the harness reads everything that comes back before the answer to a following probe heartbeat and checks count, type, sequence number, header SEID, Node ID, UP F-SEID, Created PDR set and rejection shape against the reference model. Exploration, not proof: thousands of histories per run, shrunk to a JSON replay on failure.",
-        "level_note": "Trusts go-pfcp for decoding responses, the harness BESS server for letting requests complete, and the probe argument (per-association handling is sequential).",
+        "level_text": "Generated histories over 1-3 associations and several sessions are sent to the real agent over UDP; after every request the harness reads everything that comes back before the answer to a following probe heartbeat and checks count, type, sequence number, header SEID, Node ID, UP F-SEID, Created PDR set and rejection shape against the reference model. Exploration: thousands of histories per run, shrunk to a JSON replay on failure.",
+        "level_note": WIRE_NOTE,
+    },
+    "C03": {
+        "engine": "rapid-wire",
+        "technique": "model-based stateful testing (rapid): reference model of session rules with a denotation into BESS tables, compared with the harness BESS server's settled snapshot after every accepted request, plus differential packet classification on boundary samples",
+        "level_text": "Histories of establish/modify (create, update, remove of PDR/FAR/QER)/delete/release over up to 6 live sessions and 3 associations run against the real agent and a harness BESS gRPC server with WildcardMatch/ExactMatch/Qos semantics. After every accepted request the snapshot must equal the denotation of the model: every entry attributable to a live rule, value/mask pairs of the eight match fields, port sets by set semantics, gate, FAR id, first application QER, priority order, one FAR entry with action/tunnel fields, two entries per QER in exactly one module, nothing else; boundary packets around every rule are classified by the datapath lookup and by the statement's match predicate. Requests for unknown sessions / without association must be rejected with zero commands.",
+        "level_note": WIRE_NOTE + " Exact-image oracle only inside the supported IPv4 envelope (DESIGN.md section 5). Crash/restart points are covered by the restart unit when present in checks_table.py.",
+    },
+    "C06": {
+        "engine": "rapid-direct",
+        "technique": "model-based property testing of the exported IPPool (rapid), bounded-exhaustive enumeration on small pools, and linearizability checking of concurrent histories with porcupine under the race detector",
+        "level_text": "Sequential: every alloc/lookup/release sequence is compared step by step with a set model (in range, not network/broadcast, exclusive, sticky, refusal only when full) and closed by a fill-until-refusal conservation check; all sequences of 8 operations up to length 6 (/30) and 5 (/29) are enumerated. Concurrent: 2-8 goroutines run generated programs under -race and the call/return history must be linearizable w.r.t. the pool specification.",
+        "level_note": "Trusts porcupine's checker and the Go race detector; concurrent schedules are sampled by the Go scheduler, not enumerated.",
+    },
+    "C17": {
+        "engine": "rapid-direct",
+        "technique": "exhaustive enumeration (thorough: all 2^32 (low, high) x 2 strategies) and boundary/random sampling (quick) of the port-range expansion through a build-tag hook, with a set-semantics oracle",
+        "level_text": "The single-range expansion is checked for every (low, high) and both strategies in the thorough tier (quick: all ranges with an end within 2 of a power of two or of 0/65535, all widths <= 102, 10^6 random): accepted => the rules form an ordered, gap-free block partition of exactly [low, high] (arbitrary masks are enumerated over 65536 ports), wildcard only for 0-65535 / 0-0, trivial ranges and the ternary strategy never refused. Pairs from boundary classes go through the Cartesian product: two true ranges must be refused, accepted pairs must denote exactly S x D.",
+        "level_note": "Uses the add-only hook pfcpiface/verif_hooks.go (build tag verif). The wire-level effect of port ranges is observed in C03/C08.",
+    },
+    "C18": {
+        "engine": "rapid-direct",
+        "technique": "schema-driven generation of configuration documents (rapid) with a validity-predicate oracle, a round trip against the generating model, and a metamorphic relation under comment insertion",
+        "level_text": "Configuration models with valid, boundary, invalid and absent values per field are rendered to JSON and loaded with LoadConfigFile: it must not panic; a returned configuration must satisfy the statement's predicate; valid models must round-trip field by field after defaults; re-rendering the same tokens with // and single-line /* */ comments between tokens must not change error-ness or the loaded configuration; adversarial documents (markers inside strings, multi-line blocks, truncation, bytes, wrong types) only get crash-freedom and the predicate. The shipped upf.jsonc samples must load.",
+        "level_note": "The generator covers the fields of pfcpiface.Conf that the statement names plus the optional blocks; unknown keys are ignored by the loader and generated as such.",
+    },
+    "C19": {
+        "engine": "rapid-wire",
+        "technique": "property-based testing (rapid) of the real HTTP endpoint over raw TCP with the harness BESS server as observer of slice-meter commands",
+        "level_text": "Generated requests (PUT/POST with all units incl. absent/unknown and 64-bit rates/bursts around the 2^63 boundary, malformed and truncated bodies, other methods) are sent over raw TCP to the in-process agent: well-formed => exactly one 201 and sliceMeter uplink/downlink pir = converted/8 and pbs = posted burst whenever the rate is non-zero and fits 63 bits; malformed/unreadable => exactly one response, 4xx, single JSON body, zero sliceMeter commands; other methods => 405, zero commands.",
+        "level_note": WIRE_NOTE + " UP4 slice/TC meter cell is covered once the P4Runtime server unit is enabled for C19 in checks_table.py.",
     },
 }
 
